@@ -360,21 +360,21 @@ def defer():
                     delay.append(300.0)  # due but still at work: look again
                 elif not busy:
                     fired[index] = occurrence
-                    busy = True
-                    que.append(t)
-                    que.sort(key=lambda i: i.get('level'))
-                    t.set('status', State.waiting)
-                    t.set('event', 'Periodic timer')
-                    t.set('runid', None)  # a timer event starts a new run
+                    todo = ['__all__'] if _is_asp(t) else dawgie.db.targets()
 
-                    if _is_asp(t):
-                        t.get('todo').add('__all__')
-                    else:
-                        t.get('todo').update(dawgie.db.targets())
-
-                    log.debug(
-                        'defer() - moving task %s to the job queue', t.tag
-                    )
+                    if todo:
+                        # with no known target there is nothing to run: a
+                        # node queued with an empty to-do list never leaves
+                        busy = True
+                        que.append(t)
+                        que.sort(key=lambda i: i.get('level'))
+                        t.set('status', State.waiting)
+                        t.set('event', 'Periodic timer')
+                        t.set('runid', None)  # a timer event starts a new run
+                        t.get('todo').update(todo)
+                        log.debug(
+                            'defer() - moving task %s to the job queue', t.tag
+                        )
             except _DelayNotKnowableError:
                 pass
             pass
